@@ -1,6 +1,6 @@
 (* C14 theory, part 5: decidable forms of the hypotheses, and a concrete non-trivial example that
    satisfies all of them (non-vacuity). *)
-From FB Require Import C14.Model C14.Theory C14.Theory2 C14.Theory3 C14.Theory4.
+From FB Require Import C14.Model C14.Theory C14.Theory2 C14.Theory3 C14.Theory4 C14.Theory6.
 From Coq Require Import Lia.
 
 (* ---------- acyclicity is decidable ---------- *)
@@ -44,6 +44,14 @@ Proof.
   - intros n Hn. specialize (Hall n Hn). apply andb_true_iff in Hall. rewrite !no_semib_spec in Hall. exact Hall.
 Qed.
 
+Definition descs_okb (M : mappings) : bool :=
+  forallb (fun c => forallb (fun d => is_ok (map_desc (fun x => x) d)) (class_descs c)) (ms_classes M).
+Lemma descs_okb_ok M : descs_okb M = true -> descs_ok M.
+Proof.
+  unfold descs_okb, descs_ok. rewrite forallb_forall. intros H c d Hc Hd.
+  specialize (H c Hc). rewrite forallb_forall in H. apply H. exact Hd.
+Qed.
+
 (* ---------- example ---------- *)
 (* classes A, B, D, E of a jar; the table nests B in A (inner), D in B.m()V (anonymous #1),
    E in D.m()V (local, 1L): a chain of depth 3 *)
@@ -63,6 +71,7 @@ Definition exM : mappings :=
 
 Definition nonvacuous : Prop :=
   NoDup (keys exT) /\ acyclic exT /\ all_apply exJ exT /\ table_ok exT /\ wf exM = true /\
+  length (ms_ns exM) = 2%nat /\ descs_ok exM /\
   mapping_name exT nE = Ok [65; 36; 66; 36; 49; 36; 49; 76] /\
   (exists m M1, translation exT = Ok m /\ inj_on (map_class m) (keys exT ++ source_classes exM) /\
                 apply_nests exM exT = OOk M1 /\ src_view M1 <> src_view exM) /\
@@ -75,6 +84,7 @@ Proof.
   assert (Hok : table_ok exT) by (apply table_okb_ok; vm_compute; reflexivity).
   split; [apply Hok|]. split; [apply acyclicb_spec; vm_compute; reflexivity|].
   split; [vm_compute; reflexivity|]. split; [exact Hok|]. split; [vm_compute; reflexivity|].
+  split; [reflexivity|]. split; [apply descs_okb_ok; vm_compute; reflexivity|].
   split; [vm_compute; reflexivity|]. split.
   - destruct (translation exT) as [m|] eqn:Em; [|vm_compute in Em; discriminate].
     destruct (apply_nests exM exT) as [M1| |] eqn:Ea; try (vm_compute in Ea; discriminate).
